@@ -238,9 +238,17 @@ package elastic
 //@   ensures forall y :: 0 <= y && y < seglen(res) ==> segbyte(res, y) == bat(mb, y)
 //@   ensures len(res) == 0 || fresh(res)
 //
+// wvarr / wvoff / wvlen (bookkeeping): the vector most recently handed to Buffer.Writev (backing array, offset, number of segments).
+//@ ghost log wvarr Ref
+//@ ghost log wvoff int
+//@ ghost log wvlen int
 //@ func (mb *Buffer) Writev(bs [][]byte) (n int, err error)
 //@   noverify concatenation of [][]byte segments; covered by a bounded stand-in, not proved
 //@   requires bwf(mb)
+//@   modifies wvarr, wvoff, wvlen
+//@   ghostdef wvarr := arr(bs)
+//@   ghostdef wvoff := off(bs)
+//@   ghostdef wvlen := len(bs)
 //@   modifies mb.ringBuffer.rb, mb.ringBuffer.rb.* if mb.ringBuffer.rb != nil, mem(mb.ringBuffer.rb.buf) if mb.ringBuffer.rb != nil
 //@   modifies mb.listBuffer.*, lnodes[mb.listBuffer], lpoff[mb.listBuffer], lview[mb.listBuffer], npos[mb.listBuffer], nown, lbufs[mb.listBuffer]
 //@   modifies-each x *linkedlist.node where linkedlist.mine(mb.listBuffer, x) :: next
